@@ -24,4 +24,10 @@ package cache
 //@   modifies cache.Cache.cnt, map[uint64]*cache.entry, cache.entry.lru, muheld
 //@   panic_assumed "LookupSlot"
 //@   ensures [P3-result] result != nil @C11
+// S5 (C10, C09, C03): the slot handed out is the one stored in the table under that id - the same one as
+// before if the id was cached (so what a transaction put there, or emptied, is what the next one finds),
+// a new empty one otherwise; no other entry is replaced.
+//@   ensures [S5-table-slot] indom(c.entries, id) && c.entries[id] != nil && result == fieldptr(c.entries[id], "slot") @C10 @C09 @C03
+//@   ensures [S5-kept] old(indom(c.entries, id)) && old(c.entries[id]) != nil ==> c.entries[id] == old(c.entries[id]) @C10 @C09
+//@   ensures [S5-new-empty] !(old(indom(c.entries, id)) && old(c.entries[id]) != nil) ==> fresh(c.entries[id]) && result.Obj.tag == 0 @C10
 //@   ensures [P3-unlocked] muheld == old(muheld) @C14 @C06
